@@ -341,7 +341,7 @@ int main() {{
     double ab[NEQUATIONS] = {{ {abarr} }};
     /* opt 0: element abundances that are NOT pre-normalised to hydrogen (scaled by 3.7) */
     for (int i = 0; i < NELEMENTS; i++) ref[i] *= 3.7;
-    n.SetReferenceAbund(ref, 0);
+    n.SetReferenceAbund(ref);   /* one argument: the documented default is opt 0 (element abundances) */
     int rc = n.Renorm(ab);
     FILE *o = fopen("out.bin", "wb"); fwrite(ab, sizeof(double), NEQUATIONS, o);
     /* the same object renormalises a second state against the same stored reference (no SetReferenceAbund in between) */
